@@ -494,10 +494,17 @@ fn positional_len(cf: (u8, u8), body: &[u8]) -> Result<usize, String> {
         (0x08, 0x30) => need(1),
         // Status enquiry: [password(3)]
         (0x05, 0x01) => Ok(if n >= 3 && body[0] != 0x03 && body[0] != 0x06 { 3 } else { 0 }),
-        // Abort: result code
-        (0x06, 0x1e) => need(1),
-        // Intermediate status: status [timeout]
-        (0x04, 0xff) => need(1).map(|_| n.min(2)),
+        // Abort: result code [currency(2), ZVT 2.2.9] - then BMP 87 (2.10.1) or a TLV container
+        (0x06, 0x1e) => need(1).map(|_| if n >= 3 && body[1] != 0x87 && body[1] != 0x06 { 3 } else { 1 }),
+        // Intermediate status: status [timeout] [TLV container]
+        (0x04, 0xff) => need(1).map(|_| {
+            let container_at = |k: usize| n > k + 1 && body[k] == 0x06 && parse_ber_len(&body[k + 1..]).map(|(l, u)| k + 1 + u + l == n).unwrap_or(false);
+            if container_at(1) {
+                1
+            } else {
+                n.min(2)
+            }
+        }),
         _ => Ok(0),
     }
 }
